@@ -99,7 +99,125 @@ fn judge(rep: &mut Report, what: &str, v: &Verdict, declared_dict: usize, input_
     }
 }
 
+/// inputs that are long chains of tiny valid units: run in a child process (a stack overflow aborts)
+pub const DEEP_KINDS: &[&str] = &["xz-empty-streams", "xz-tiny-streams", "xz-tiny-blocks", "lzip-empty-members", "lzip-empty-members-mt", "lzma2-tiny-chunks", "lzma2-tiny-chunks-mt", "xz-padding-run"];
+
+pub fn deep_input(kind: &str, n: usize) -> Vec<u8> {
+    use std::io::Write;
+    let xz_one = |data: &[u8]| {
+        let mut w = XZWriter::new(Vec::new(), XZOptions::with_preset(0)).unwrap();
+        w.write_all(data).unwrap();
+        w.finish().unwrap()
+    };
+    match kind {
+        "xz-empty-streams" => xz_one(b"").repeat(n),
+        "xz-tiny-streams" => xz_one(b"a").repeat(n),
+        "xz-tiny-blocks" => {
+            let mut o = XZOptions::with_preset(0);
+            o.set_block_size(std::num::NonZeroU64::new(4096));
+            let mut w = XZWriter::new(Vec::new(), o).unwrap();
+            w.write_all(&vec![b'x'; 4096 * n.min(20000)]).unwrap();
+            w.finish().unwrap()
+        }
+        "lzip-empty-members" | "lzip-empty-members-mt" => {
+            let w = LZIPWriter::new(Vec::new(), LZIPOptions::with_preset(0));
+            w.finish().unwrap().repeat(n)
+        }
+        "lzma2-tiny-chunks" | "lzma2-tiny-chunks-mt" => {
+            let mut v = vec![1u8, 0, 0, b'a'];
+            for _ in 1..n {
+                v.extend([2u8, 0, 0, b'b']);
+            }
+            v.push(0);
+            v
+        }
+        _ => {
+            let mut v = xz_one(b"abc");
+            v.extend(std::iter::repeat(0u8).take(4 * n));
+            v.extend(xz_one(b"def"));
+            v
+        }
+    }
+}
+
+/// child process: decode one deep input on a thread with the default 2 MiB stack
+pub fn run_deep_point(kind: &str, n: usize) -> i32 {
+    let input = deep_input(kind, n);
+    let kind = kind.to_string();
+    let h = std::thread::spawn(move || {
+        let cap = 1usize << 30;
+        let o: Outcome<usize> = match kind.as_str() {
+            k if k.starts_with("xz") => match xz_decompress(&input, true, &[65536], cap) {
+                Outcome::Ok((out, _)) => Outcome::Ok(out.len()),
+                Outcome::Err(k, m) => Outcome::Err(k, m),
+                Outcome::Panic(p) => Outcome::Panic(p),
+            },
+            "lzip-empty-members" => match lzip_decompress(&input, &[65536], cap) {
+                Outcome::Ok((out, _)) => Outcome::Ok(out.len()),
+                Outcome::Err(k, m) => Outcome::Err(k, m),
+                Outcome::Panic(p) => Outcome::Panic(p),
+            },
+            "lzip-empty-members-mt" => guard(|| {
+                let mut rd = LZIPReaderMT::new(std::io::Cursor::new(input), 2)?;
+                Ok(read_all_sched(&mut rd, &[65536], cap)?.len())
+            }),
+            "lzma2-tiny-chunks" => match lzma2_decompress(&input, 4096, None, &[65536], cap) {
+                Outcome::Ok((out, _)) => Outcome::Ok(out.len()),
+                Outcome::Err(k, m) => Outcome::Err(k, m),
+                Outcome::Panic(p) => Outcome::Panic(p),
+            },
+            _ => guard(|| {
+                let mut rd = LZMA2ReaderMT::new(input.as_slice(), 4096, None, 2);
+                Ok(read_all_sched(&mut rd, &[65536], cap)?.len())
+            }),
+        };
+        o.describe()
+    });
+    match h.join() {
+        Ok(d) => {
+            println!("deep-result {d}");
+            if d.starts_with("panic") { 3 } else { 0 }
+        }
+        Err(_) => 4,
+    }
+}
+
+fn run_deep(rep: &mut Report, thorough: bool) {
+    let exe = std::env::current_exe().unwrap();
+    let ns: &[usize] = if thorough { &[3000, 40000, 400000] } else { &[3000, 40000] };
+    let mut children = vec![];
+    for kind in DEEP_KINDS {
+        for &n in ns {
+            let t = Instant::now();
+            let ch = std::process::Command::new(&exe).args(["C06-deep", kind, &n.to_string()]).stderr(std::process::Stdio::null()).stdout(std::process::Stdio::piped()).spawn().expect("spawn child");
+            children.push((kind, n, t, ch));
+        }
+    }
+    for (kind, n, t, ch) in children {
+        let out = ch.wait_with_output();
+        let secs = t.elapsed().as_secs_f64();
+        let d = json!({"decoder": kind, "units": n, "how": format!("vh C06-deep {kind} {n}")});
+        rep.count(&format!("deep.{kind}"));
+        match out {
+            Ok(o) => {
+                let txt = String::from_utf8_lossy(&o.stdout).to_string();
+                if !o.status.success() {
+                    rep.fail(&format!("decoder-abort:{kind}"), &format!("decoding {n} chained tiny units ended the process: {:?} {}", o.status, txt.trim()), d.clone());
+                } else if !txt.contains("deep-result ok") {
+                    rep.fail(&format!("decoder-rejects-valid:{kind}"), &format!("{n} chained valid units: {}", txt.trim()), d.clone());
+                }
+                if secs > 120.0 {
+                    rep.fail(&format!("decoder-slow:{kind}"), &format!("{secs:.0} s for {n} units"), d.clone());
+                }
+            }
+            Err(e) => rep.fail(&format!("decoder-abort:{kind}"), &format!("{e}"), d.clone()),
+        }
+        rep.case(format!("deep:{kind}:{n}"), true, || d);
+    }
+}
+
 pub fn run(rep: &mut Report, rng: &mut Rng, thorough: bool) {
+    run_deep(rep, thorough);
     let n = if thorough { 60000 } else { 2500 };
     let files = valid_files(rng, if thorough { 6 } else { 2 }, 600);
     let cap = 1 << 20;
@@ -190,11 +308,25 @@ pub fn run(rep: &mut Report, rng: &mut Rng, thorough: bool) {
             }
             5 | 6 => {
                 // raw LZMA2: random chunk soup or mutated valid stream
-                let dict = *r.pick(&[4096u32, 65536, 1 << 20, 0xFFFF_FFFF]);
+                let dict = *r.pick(&[4096u32, 65536, 1 << 20, 0xFFFF_FFFF, 0, 1, 4095, 4097]);
                 let dict = if dict == 0xFFFF_FFFF && !r.chance(1, 30) { 4096 } else { dict };
                 let m: Vec<u8> = if which == 5 {
                     let mut v = vec![];
                     for _ in 0..r.range(1, 5) {
+                        if r.chance(1, 4) {
+                            // a complete stored chunk whose size field is at an extreme
+                            let n = *r.pick(&[1usize, 2, 255, 256, 65535, 65536]);
+                            v.push(if v.is_empty() { 1 } else { 2 });
+                            v.push(((n - 1) >> 8) as u8);
+                            v.push((n - 1) as u8);
+                            let fill = r.next() as u8;
+                            v.extend(std::iter::repeat(fill).take(n));
+                            if r.chance(1, 2) {
+                                v.push(0);
+                                break;
+                            }
+                            continue;
+                        }
                         let c = *r.pick(&[0u8, 1, 2, 3, 0x7F, 0x80, 0xA0, 0xC0, 0xE0, 0xFF]);
                         v.push(c);
                         let l = r.range(0, 12) as usize;
@@ -216,9 +348,9 @@ pub fn run(rep: &mut Report, rng: &mut Rng, thorough: bool) {
                     }
                 };
                 let v = run_case(|| lzma2_decompress(&m, dict, None, &[4096], cap));
-                let d = json!({"decoder": "lzma2", "dict": dict, "input_hex": if m.len() <= 600 { hex(&m) } else { "-".into() }, "case": i});
+                let d = json!({"decoder": "lzma2", "dict": dict, "input_hex": if m.len() <= 600 { hex(&m) } else { format!("{}..(len {}, fnv {})", hex(&m[..16.min(m.len())]), m.len(), fnv(&m)) }, "case": i});
                 judge(rep, "lzma2", &v, dict as usize, m.len(), d.clone());
-                if dict != 0xFFFF_FFFF {
+                if dict != 0xFFFF_FFFF && m.len() <= 70000 {
                     let o = lzma2_decompress(&m, dict, None, &[4096], cap);
                     rep.model(format!("lzma2.dec dict={dict} preset=- in={} cap={cap} reenc=0", hex(&m)), match &o { Outcome::Ok((out, used)) => format!("ok {} {} {} -", out.len(), fnv(out), used), other => canon_simple(other) });
                 }
